@@ -34,7 +34,11 @@ namespace CDNS {
     class CdnsEncoder {
         public:
 
+#ifdef CDNS_VERIF_ENCODER_BUFFER_SIZE
+        static constexpr std::size_t BUFFER_SIZE = CDNS_VERIF_ENCODER_BUFFER_SIZE;
+#else
         static constexpr std::size_t BUFFER_SIZE = 2048;
+#endif
 
         /**
          * @brief Construct a new CdnsEncoder object
